@@ -94,11 +94,17 @@ Qed.
 Lemma truth_gbool b : g_truth (gbool b) = b.
 Proof. destruct b; reflexivity. Qed.
 
-Ltac kcbn0 := cbn [bind kwin kwget String.eqb Ascii.eqb Bool.eqb negb andb orb Z.eqb Pos.eqb fst snd
-                   g_eq g_len g_slice slice_of g_add g_val2bytes g_is_none gint gbytes gnone pv_eq as_def].
+(* comparisons of two literals are computed; one with a variable on either side stays a Z.eqb for lia
+   (cbn on `16 =? x` would open the match on the literal and leave a term lia cannot read) *)
+Ltac zeqb_consts :=
+  repeat match goal with |- context [Z.eqb ?a ?b] =>
+    let v := eval vm_compute in (Z.eqb a b) in
+    match v with true => change (Z.eqb a b) with true | false => change (Z.eqb a b) with false end end.
+Ltac kcbn0 := repeat (progress (cbn [bind kwin kwget String.eqb Ascii.eqb Bool.eqb negb andb orb fst snd
+                   g_eq g_len g_slice slice_of g_add g_val2bytes g_is_none gint gbytes gnone pv_eq as_def]; zeqb_consts)).
 Ltac kcbn := kcbn0; rewrite ?truth_gbool;
-             cbn [bind kwin kwget String.eqb Ascii.eqb Bool.eqb negb andb orb Z.eqb Pos.eqb fst snd
-                  g_eq g_len g_slice slice_of g_add g_val2bytes g_is_none g_truth gint gbytes gbool gnone pv_eq as_def].
+             repeat (progress (cbn [bind kwin kwget String.eqb Ascii.eqb Bool.eqb negb andb orb fst snd
+                  g_eq g_len g_slice slice_of g_add g_val2bytes g_is_none g_truth gint gbytes gbool gnone pv_eq as_def]; zeqb_consts)).
 
 Ltac step :=
   kcbn;
